@@ -7,6 +7,7 @@ mod bus;
 mod converter;
 mod eof;
 mod fork;
+mod osc;
 mod probe;
 mod ringbuf;
 mod rms;
@@ -29,6 +30,7 @@ fn main() {
         &converter::ConverterScenario,
         &rms::RmsScenario,
         &alloc::AllocScenario,
+        &osc::OscScenario,
     ];
     simcore::cli::main(&scens)
 }
